@@ -469,6 +469,9 @@ pub fn fmt_write(f: &mut core::fmt::Formatter<'_>) -> (r: Result<(), core::fmt::
 pub fn fmt_format() -> (r: String) { String::new() }
 #[verifier::external_body]
 pub fn fmt_nested<T>(x: &T, f: &mut core::fmt::Formatter<'_>) -> (r: Result<(), core::fmt::Error>) { Ok(()) }
+// std::mem::take / replace: what is handed out is the old content (what is left behind by `take` is not specified here)
+pub assume_specification<T> [std::mem::take] (dest: &mut T) -> (r: T) where T: std::default::Default, ensures r == *old(dest);
+pub assume_specification<T> [std::mem::replace] (dest: &mut T, src: T) -> (r: T) ensures r == *old(dest), *final(dest) == src;
 // ---- X23: `a |= b;` / `a &= b;` are rewritten to `a = vs_or(a, b);` / `a = vs_and(a, b);` because Verus rejects the
 // ---- non-short-circuit `|` / `&` on bool.  Verified (not assumed) helpers; both operands are evaluated, as in the original.
 pub trait VsOrAnd: Sized {
